@@ -28,6 +28,44 @@ def probe_f19(run, har):
             run.report_failure(None, "a chain of %d steps fails: rc %d" % (n, p.returncode), where)
     finally:
         shutil.rmtree(d, ignore_errors=True)
+    # "never waits forever", whatever the commands do that succeed: chatty commands (more output than a pipe holds), commands that
+    # close their output early, commands that leave a background process holding the pipe for a moment
+    d = tempfile.mkdtemp(prefix="n2verif-c06b-%d-" % os.getpid())
+    try:
+        with open(os.path.join(d, "build.ninja"), "w") as f:
+            f.write("rule big\n  command = head -c $n /dev/zero | tr '\\0' x; touch $out\n"
+                    "rule closer\n  command = exec >&- 2>&-; sleep 0.2; touch $out\n"
+                    "rule bg\n  command = (sleep 1; echo late) & touch $out\n"
+                    "rule cat\n  command = cat $in > $out\n")
+            outs = []
+            for i, n in enumerate([10, 70000, 300000, 1000000]):
+                f.write("build b%d: big\n  n = %d\n" % (i, n))
+                outs.append("b%d" % i)
+            f.write("build c0: closer\nbuild g0: bg\nbuild all: cat %s c0 g0\n" % " ".join(outs))
+        for j in ("1", "4"):
+            p = subprocess.Popen([n2, "-j", j, "all"], cwd=d, stdout=subprocess.PIPE, stderr=subprocess.PIPE, stdin=subprocess.DEVNULL, env=ENV,
+                                 preexec_fn=os.setsid)
+            try:
+                so, se = p.communicate(timeout=90)
+                if p.returncode != 0 or not os.path.exists(os.path.join(d, "all")):
+                    run.report_failure(None, "no command fails, yet the invocation ends with status %d" % p.returncode,
+                                       {"suite": "chatty-commands", "j": j, "tail": so.decode("utf-8", "replace")[-300:]})
+            except subprocess.TimeoutExpired:
+                try:
+                    os.killpg(p.pid, 9)
+                except OSError:
+                    pass
+                p.communicate()
+                run.report_failure(None, "n2 waits forever: steps writing 10 to 1000000 bytes of output, none failing, -j %s: not finished after 90 s" % j,
+                                   {"suite": "chatty-commands", "j": j, "manifest": open(os.path.join(d, "build.ninja")).read()})
+            for o in outs + ["c0", "g0", "all"]:
+                try:
+                    os.remove(os.path.join(d, o))
+                except OSError:
+                    pass
+    finally:
+        shutil.rmtree(d, ignore_errors=True)
+    run.coverage["black_box_chatty_commands"] = "outputs of 10..1000000 bytes, a command closing its output, a background writer; -j 1 and 4; 90 s limit"
     # the run loop waits on the worker threads' channel: a worker that dies without reporting leaves it waiting forever
     import taskleg
     taskleg.showincludes_bytes_leg(run, n2)
